@@ -40,12 +40,40 @@ class CountMon(mon.Monitor):
     """state = (delta, pending, memo):  delta = (#calls of `call_def` so far) - (sum of increments of the counter field);
     pending = literal selected by an `if`-expression that is the right-hand side of an increment;
     memo = truth values of pure conditions already decided on this path (the same condition tested twice is correlated)."""
-    init = ((0, None, frozenset()),)
+    init = ((0, None, frozenset(), None),)
+    # 4th component: None = `delta` is calls - increments; ("B", vpos) = a loop counter v is live and `delta` stands for
+    # calls - increments - v (the counter field is brought up to date later by `field += v + c`); vpos: v may be > 0
 
     def __init__(self, rule, fn, call_def, field, summaries, body=None):
         super().__init__()
         self.rule, self.fn, self.call_def, self.field, self.summaries = rule, fn, call_def, field, summaries
         self.nonliteral = []
+        self.tracked = {}      # id of an increment node `field += v + c` -> (v id, c)
+        self.tracked_var = None
+        if body is not None:
+            for n in tast.find(body["body"], lambda z: z.get("k") == "AssignOp" and z.get("op") in ("Add", "AddAssign") and z["l"].get("k") == "Field"
+                               and (z["l"].get("fdef") or "") == field and mon.is_lit_int(z["r"]) is None):
+                r = n["r"]
+                while r.get("k") == "Cast":
+                    r = r["e"]
+                v, c = None, 0
+                if r.get("k") == "Path" and r.get("res") == "local" and "usize" in (r.get("ty") or ""):
+                    v = r["id"]
+                elif r.get("k") == "Binary" and r["op"] == "Add":
+                    for a_, b_ in ((r["l"], r["r"]), (r["r"], r["l"])):
+                        if a_.get("k") == "Path" and a_.get("res") == "local" and "usize" in (a_.get("ty") or "") and mon.is_lit_int(b_) is not None:
+                            v, c = a_["id"], mon.is_lit_int(b_)
+                if v is not None and (self.tracked_var in (None, v)):
+                    self.tracked[id(n)] = (v, c)
+                    self.tracked_var = v
+            # loops that advance the tracked counter do not have to balance per cycle: the field is updated after them
+            self.counter_loops = set()
+            if self.tracked_var is not None:
+                for lp in tast.find(body["body"], lambda z: z.get("k") in ("Loop", "For")):
+                    if tast.contains(lp["body"], lambda z: z.get("k") == "AssignOp" and z["l"].get("k") == "Path" and z["l"].get("id") == self.tracked_var):
+                        inner = [l2 for l2 in tast.find(lp["body"], lambda z: z.get("k") in ("Loop", "For")) if tast.contains(l2["body"], lambda z: z.get("k") == "AssignOp" and z["l"].get("k") == "Path" and z["l"].get("id") == self.tracked_var)]
+                        if not inner:
+                            self.counter_loops.add(id(lp))
         self.loops = {}
         self._call_nodes = set()
         self._incr_nodes = set()
@@ -80,17 +108,55 @@ class CountMon(mon.Monitor):
 
     def check(self, st, where, node):
         d = st[0]
+        mode = st[3]
+        if mode is not None:
+            # calls - increments = d + v with the live counter v
+            if mode[1] and d >= 0:
+                self.violate("%s:%s:%s:uncounted-loop" % (self.rule, self.fn, where),
+                             "at %s the calls of %s made in the loop counted by a local counter have not been added to %s on this path (the counter is only brought up to date by a later `+= counter + c`); path: %s"
+                             % (where, self.call_def, self.field, " -> ".join([t for t in self.cur_trail if t.startswith("call") or "+=" in t or "AddAssign" in t][-5:])), node, self.cur_trail)
+                return ((0, None, st[2], None),)
+            if mode[1]:
+                self.nonliteral.append(node)
+                return ((0, None, st[2], None),)
+            # counter known to be 0: plain check
         if d != 0:
             what = ("%d call(s) of %s not counted in %s" % (d, self.call_def, self.field)) if d > 0 else \
                    ("%s incremented %d time(s) more than %s was called" % (self.field, -d, self.call_def))
             calls = [t for t in self.cur_trail if t.startswith("call") or "AddAssign" in t or "+=" in t]
             self.violate("%s:%s:%s:%+d" % (self.rule, self.fn, where, d),
                          "%s at %s; path: %s" % (what, where, " -> ".join(calls[-6:])), node, self.cur_trail)
-        return ((0, None, st[2]),)
+        return ((0, None, st[2], st[3]),)
 
     def step(self, st, ev):
         kind, n = ev[0], ev[1]
-        d, pend, memo = st
+        d, pend, memo, mode = st
+        tv = self.tracked_var
+        if kind == "node" and tv is not None:
+            k_ = n.get("k")
+            # the tracked loop counter: (re)initialised with a literal, incremented by a literal
+            if k_ == "Let" and n["pat"].get("k") == "PBind" and n["pat"].get("id") == tv and n.get("init") is not None:
+                k0 = mon.is_lit_int(n["init"] if n["init"].get("k") != "Cast" else n["init"]["e"])
+                if k0 is not None and mode is None:
+                    return ((clamp(d - k0), pend, memo, ("B", k0 > 0)),)
+                if k0 is not None and mode is not None and not mode[1]:
+                    return ((clamp(d - k0), pend, memo, ("B", k0 > 0)),)
+                self.nonliteral.append(n)
+                return (st,)
+            if k_ in ("Assign", "AssignOp") and n["l"].get("k") == "Path" and n["l"].get("id") == tv:
+                k0 = mon.is_lit_int(n["r"])
+                if k_ == "AssignOp" and n.get("op") in ("Add", "AddAssign") and k0 is not None and mode is not None:
+                    return ((clamp(d - k0), pend, memo, ("B", mode[1] or k0 > 0)),)
+                if k_ == "Assign" and k0 is not None and (mode is None or not mode[1]):
+                    return ((clamp(d - k0), pend, memo, ("B", k0 > 0)),)
+                self.nonliteral.append(n)
+                return (st,)
+            if k_ == "AssignOp" and id(n) in self.tracked:
+                self._incr_nodes.add(id(n))
+                if mode is None:
+                    self.nonliteral.append(n)
+                    return (st,)
+                return ((clamp(d - self.tracked[id(n)][1]), None, memo, None),)
         if kind in ("then", "else") and n.get("k") == "If":
             truth = kind == "then"
             if id(n) in self.if_rhs:
@@ -102,7 +168,7 @@ class CountMon(mon.Monitor):
                     if k2 == key and t2 != truth:
                         return ()      # the same condition already went the other way on this path
                 memo = memo | {(key, truth)}
-            return ((d, pend, memo),)
+            return ((d, pend, memo, mode),)
         if kind == "node":
             k = n.get("k")
             if k in ("Assign", "AssignOp") and n["l"].get("k") == "Path" and n["l"].get("res") == "local":
@@ -110,28 +176,32 @@ class CountMon(mon.Monitor):
                 memo2 = frozenset(e for e in memo if lid not in e[0][1])
                 if memo2 != memo:
                     memo = memo2
-                    st = (d, pend, memo)
+                    st = (d, pend, memo, mode)
             if k in ("MethodCall", "Call"):
                 df = n.get("def")
                 if df == self.call_def:
                     self._call_nodes.add(id(n))
-                    return ((clamp(d + 1), pend, memo),)
+                    return ((clamp(d + 1), pend, memo, mode),)
                 if df in self.summaries and self.summaries[df]:
-                    return ((clamp(d + self.summaries[df]), pend, memo),)
+                    return ((clamp(d + self.summaries[df]), pend, memo, mode),)
             elif k == "AssignOp" and n["l"].get("k") == "Field" and (n["l"].get("fdef") or "") == self.field:
                 self._incr_nodes.add(id(n))
                 v = mon.is_lit_int(n["r"])
                 if v is None and id(n["r"]) in self.if_rhs and pend is not None:
                     v = pend
                 if n["op"] in ("Add", "AddAssign") and v is not None:
-                    return ((clamp(d - v), None, memo),)
+                    return ((clamp(d - v), None, memo, mode),)
                 self.nonliteral.append(n)
                 return (st,)
             elif k == "Assign" and n["l"].get("k") == "Field" and (n["l"].get("fdef") or "") == self.field:
                 self.nonliteral.append(n)
         elif kind == "pre" and n.get("k") == "Loop":
+            if mode is not None and id(n) in getattr(self, "counter_loops", ()):
+                return (st,)
             return self.check(st, "entry of " + self.loop_name(n), n)
         elif kind == "latch":
+            if mode is not None and id(n) in getattr(self, "counter_loops", ()):
+                return (st,)
             return self.check(st, "one iteration of " + self.loop_name(n), n)
         elif kind == "return":
             return self.check(st, "return", n)
